@@ -229,7 +229,12 @@ func (ce *CEnv) ident(name string) Val {
 		return Val{K: VOpaque}
 	}
 	if sf := ce.x.P.specIn(ce.home, ce.pkg, name); sf != nil && len(sf.Params) == 0 {
-		return ce.eval(sf.Body)
+		n := *ce
+		if sp := ce.x.P.spkgs[sf.Pkg]; sp != nil {
+			n.pkg = sp.Pkg
+			n.home = sf.Pkg
+		}
+		return n.eval(sf.Body)
 	}
 	if ce.pkg != nil {
 		if v, ok := ce.pkgMemberOK(ce.pkg, name); ok {
@@ -549,6 +554,10 @@ func (ce *CEnv) call(e *CExpr) Val {
 		}
 		n := *ce
 		n.depth++
+		if sp := ce.x.P.spkgs[sf.Pkg]; sp != nil {
+			n.pkg = sp.Pkg
+			n.home = sf.Pkg
+		}
 		n.vars = make(map[string]Val, len(ce.vars)+len(args))
 		for k, v := range ce.vars {
 			n.vars[k] = v
